@@ -6,6 +6,7 @@ import (
 	"bytes"
 	"context"
 	"io"
+	"os"
 	"strconv"
 	"strings"
 
@@ -71,7 +72,41 @@ func (w *budgetWriter) Write(p []byte) (int, error) {
 	return n, errInjectedWriter
 }
 
+// fileWriter returns a real *os.File on which every write fails: 0 = /dev/full (ENOSPC), 1 = a file opened
+// read-only (EBADF), 2 = the write end of a pipe whose read end is closed (EPIPE).
+func fileWriter(kind int) (*os.File, func()) {
+	switch kind {
+	case 1:
+		f, err := os.CreateTemp("", "gtro")
+		if err != nil {
+			panic(err)
+		}
+		name := f.Name()
+		f.Close()
+		ro, err := os.Open(name)
+		if err != nil {
+			panic(err)
+		}
+		return ro, func() { ro.Close(); os.Remove(name) }
+	case 2:
+		r, w, err := os.Pipe()
+		if err != nil {
+			panic(err)
+		}
+		r.Close()
+		return w, func() { w.Close() }
+	}
+	f, err := os.OpenFile("/dev/full", os.O_WRONLY, 0)
+	if err != nil {
+		panic(err)
+	}
+	return f, func() { f.Close() }
+}
+
 func classifyFault(err error, fl string) string {
+	if err != nil && fl == "3" {
+		return "err:writer"
+	}
 	if err != nil && fl == "1" && strings.Contains(err.Error(), io.ErrShortWrite.Error()) {
 		return "err:writer"
 	}
@@ -97,7 +132,13 @@ func handleFaults(toks []string) (string, bool) {
 		}
 		var err error
 		var acc string
-		if toks[2] != "-" {
+		if toks[2] != "-" && toks[3] == "3" {
+			// a real *os.File that cannot be written to (the writer's dynamic type matters to callers that buffer)
+			k, _ := strconv.Atoi(toks[2])
+			fw, done := fileWriter(k)
+			err = gtree.OutputFromMarkdown(fw, r, opts...)
+			done()
+		} else if toks[2] != "-" {
 			b, _ := strconv.Atoi(toks[2])
 			w := &budgetWriter{budget: b, flavour: toks[3]}
 			err = gtree.OutputFromMarkdown(w, r, opts...)
@@ -135,6 +176,12 @@ func handleFaults(toks []string) (string, bool) {
 			}
 		}
 		b, _ := strconv.Atoi(toks[1])
+		if toks[2] == "3" {
+			fw, done := fileWriter(b)
+			err := gtree.OutputFromRoot(fw, root, opts...)
+			done()
+			return classifyFault(err, "3") + " -", true
+		}
 		w := &budgetWriter{budget: b, flavour: toks[2]}
 		err := gtree.OutputFromRoot(w, root, opts...)
 		if toks[2] == "2" {
